@@ -71,13 +71,16 @@ def cel_readonly(res):
     sl_i, sl_f, sl_s = T("[]int", "TSlice", "coll"), T("[]float64", "TSlice", "coll"), T("[]string", "TSlice", "coll")
     exprs = [("Q", sl_i, "size(value.filter(item, item > 0)) <= 2"), ("R", sl_i, "value.all(x, x >= -10) && size(value.map(x, x * 2)) >= 0"),
              ("S", sl_i, "value.exists(x, x > 6) || value.exists_one(x, x == 5)"), ("F", sl_f, "size(value.filter(v, v > 0.5)) < 3"),
-             ("N", sl_s, "size(value.filter(n, n != '')) >= 1 && value.all(n, size(n) < 9)"), ("U", T("[]uint8", "TSlice", "coll"), "size(value.filter(b, b > 1)) <= 1")]
+             ("N", sl_s, "size(value.filter(n, n != '')) >= 1 && value.all(n, size(n) < 9)"), ("U", T("[]uint8", "TSlice", "coll"), "size(value.filter(b, b > 1)) <= 1"),
+             # patterns only known at run time: any cache of compiled patterns is shared state
+             ("Pin", basic("string"), "value.matches(this.Pat) || value == ''"), ("Pat", basic("string"), "value != '(' && 'abc'.matches(value)")]
     fields = [fld(nm, ["//govalid:cel=" + e], t) for nm, t, e in exprs]
 
     def sets(ints, strs):
         return [{"path": "Q", "vk": "coll", "intelems": ints}, {"path": "R", "vk": "coll", "intelems": ints[::-1]},
                 {"path": "S", "vk": "coll", "intelems": ints}, {"path": "F", "vk": "coll", "intelems": ints},
-                {"path": "N", "vk": "coll", "strelems": [x.encode().hex() for x in strs]}, {"path": "U", "vk": "coll", "intelems": [abs(i) for i in ints]}]
+                {"path": "N", "vk": "coll", "strelems": [x.encode().hex() for x in strs]}, {"path": "U", "vk": "coll", "intelems": [abs(i) for i in ints]},
+                {"path": "Pin", "vk": "string", "str": ("ab" + "".join(strs)).encode().hex()}, {"path": "Pat", "vk": "string", "str": ("^a[b-z]*" + "".join(strs)).encode().hex()}]
     cases = [case(sets([-1, 5, 7], ["", "ab", "c"])), case(sets([3, -2, 4, 9], ["a", "", ""])), case(sets([0, 0, 1], ["x"])), case(sets([9, 8, 7, 6, 5], ["", "", "z"])), case(sets([-5], [""]))]
     gr = genfam.GenRun(res, {"scenarios": [scenario("c16cel", [struct("T", fields, cases)])]}, "c16cel")
     if not gr.generate() or gr.gen_status != 0:
